@@ -185,6 +185,12 @@ def capsule_tree(rng, base: str, symlinks=True, odd_names=True, root_via_symlink
                 add_file(p, True)
     if rng.random() < 0.4:
         add_file(os.path.join(real_root, "n" * 200 + ".gmi"), True)
+    if odd_names and rng.random() < 0.6:
+        # one visible name, two Unicode forms, two files (and a case twin): each path must get its own file
+        d = rng.choice(dirs)
+        for n in ("re\u0301sume\u0301.gmi", "r\u00e9sum\u00e9.gmi", "Readme.GMI", "readme.gmi", "stra\u00dfe.gmi", "strasse.gmi", "\ufb01le.gmi", "file.gmi"):
+            if not os.path.exists(os.path.join(d, n)):
+                add_file(os.path.join(d, n), True)
     # outside and prefix-sharing siblings
     outs = []
     for oname in ("site-private", "site2", "outside"):
